@@ -1,6 +1,337 @@
-//! E2: protocol-level commit-handler races (placeholder, filled in below).
+//! E2: protocol-level races on the commit handlers (C02, C10, C33).
+//!
+//! 2-3 writers and 1-2 readers call the real `CommitHandler` methods directly with tiny
+//! manifests carrying a unique marker per attempt, under the seeded scheduler and faults.
+
+use std::collections::{BTreeMap, BTreeSet, HashMap};
+use std::sync::{Arc, Mutex};
+
+use lance_core::datatypes::Schema as LanceSchema;
+use lance_file::version::LanceFileVersion;
+use lance_table::format::{DataStorageFormat, Manifest};
+use lance_table::io::commit::{write_manifest_file_to_path, CommitError, CommitHandler, ManifestNamingScheme};
+use object_store::path::Path;
+
+use crate::driver::{drive, SchedCfg};
+use crate::handlers::{make_handler, HandlerKind};
+use crate::rng::Rng;
 use crate::runres::{RunCfg, RunResult};
+use crate::world::{Decision, LanceKnobs, Party, PathClass, World};
+
+const BASE: &str = "t";
+const URI: &str = "sim://bucket/t";
+
+#[derive(Clone, Debug)]
+enum Obs {
+    /// writer result: (attempt marker, version tried, outcome)
+    Commit { actor: u32, marker: String, version: u64, outcome: String },
+    /// reader saw `marker` at `version` (via latest or by version)
+    Read { actor: u32, version: u64, marker: String, how: &'static str },
+}
+
+fn base_manifest(marker: &str) -> Manifest {
+    let arrow = arrow_schema::Schema::new(vec![arrow_schema::Field::new("x", arrow_schema::DataType::Int32, true)]);
+    let schema = LanceSchema::try_from(&arrow).unwrap();
+    let mut m = Manifest::new(schema, Arc::new(vec![]), DataStorageFormat::new(LanceFileVersion::V2_0), HashMap::new());
+    m.config.insert("mk".into(), marker.to_string());
+    m
+}
+
+pub fn marker_of(bytes: &[u8]) -> Option<String> {
+    // the marker is stored as a plain string "MK<...>KM" inside the manifest protobuf
+    let s = String::from_utf8_lossy(bytes);
+    let a = s.find("MK<")?;
+    let b = s[a..].find(">KM")?;
+    Some(s[a + 3..a + b].to_string())
+}
+
+async fn read_marker(party: &Party, path: &Path) -> Option<String> {
+    let store = party.raw_store();
+    match store.get(path).await {
+        Ok(r) => match r.bytes().await {
+            Ok(b) => marker_of(&b),
+            Err(_) => None,
+        },
+        Err(_) => None,
+    }
+}
+
+async fn writer(party: Arc<Party>, handler: Arc<dyn CommitHandler>, scheme: ManifestNamingScheme, attempts: u32, obs: Arc<Mutex<Vec<Obs>>>) {
+    let store = party.lance_store(URI);
+    let base = Path::from(BASE);
+    for att in 0..attempts {
+        let latest = match handler.resolve_latest_location(&base, &store).await {
+            Ok(l) => l,
+            Err(_) => continue,
+        };
+        let marker = format!("MK<a{}-{}>KM", party.id, att);
+        let mut m = base_manifest(&marker);
+        m.version = latest.version + 1;
+        let res = handler.commit(&mut m, None, &base, &store, write_manifest_file_to_path, scheme, None).await;
+        let outcome = match &res {
+            Ok(_) => "ok".to_string(),
+            Err(CommitError::CommitConflict) => "conflict".to_string(),
+            Err(CommitError::OtherError(e)) => format!("error:{}", crate::e1::err_class(&e.to_string())),
+        };
+        obs.lock().unwrap().push(Obs::Commit { actor: party.id, marker: marker[3..marker.len() - 3].to_string(), version: m.version, outcome });
+    }
+}
+
+async fn reader(party: Arc<Party>, handler: Arc<dyn CommitHandler>, rounds: u32, seed: u64, obs: Arc<Mutex<Vec<Obs>>>) {
+    let store = party.lance_store(URI);
+    let base = Path::from(BASE);
+    let mut rng = Rng::new(seed);
+    for _ in 0..rounds {
+        if let Ok(loc) = handler.resolve_latest_location(&base, &store).await {
+            if let Some(mk) = read_marker(&party, &loc.path).await {
+                obs.lock().unwrap().push(Obs::Read { actor: party.id, version: loc.version, marker: mk, how: "latest" });
+            }
+            let v = rng.range(1, loc.version as i64) as u64;
+            if let Ok(l2) = handler.resolve_version_location(&base, v, &store.inner).await {
+                if let Some(mk) = read_marker(&party, &l2.path).await {
+                    obs.lock().unwrap().push(Obs::Read { actor: party.id, version: v, marker: mk, how: "by-version" });
+                }
+            }
+        }
+    }
+}
 
 pub async fn run(cfg: RunCfg) -> RunResult {
-    RunResult::harness_error(&cfg, "e2 not built yet".into())
+    let t0 = std::time::Instant::now();
+    let mut res = RunResult::new(&cfg);
+    let mut rng = Rng::new(cfg.seed);
+    let w = World::new();
+    let hk = match cfg.opt("handler").and_then(HandlerKind::parse) {
+        Some(h) => h,
+        None => *rng.pick(&HandlerKind::ATOMIC),
+    };
+    let amb = cfg.opt_bool("amb").unwrap_or(false);
+    let faults_on = cfg.opt_bool("faults").unwrap_or(true);
+    let scheme = if rng.chance(0.75) { ManifestNamingScheme::V2 } else { ManifestNamingScheme::V1 };
+    let knobs = LanceKnobs { block_size: 4096, io_parallelism: 4, download_retry_count: rng.range(0, 2) as usize, list_is_lexically_ordered: rng.chance(0.6) };
+    {
+        let mut g = w.lock();
+        g.knobs.list_lexical = knobs.list_is_lexically_ordered || rng.chance(0.5);
+        g.knobs.list_salt = rng.next_u64();
+        g.knobs.delete_missing_ok = rng.chance(0.5);
+        g.ext_stale = hk == HandlerKind::External && rng.chance(0.5);
+    }
+    res.knobs.insert("handler".into(), format!("{:?}", hk));
+    res.knobs.insert("scheme".into(), format!("{:?}", scheme));
+    res.knobs.insert("amb".into(), amb.to_string());
+    res.knobs.insert("list_lexical".into(), knobs.list_is_lexically_ordered.to_string());
+
+    // version 1, fault free, direct mode
+    let p0 = Arc::new(Party::new(&w, 0, knobs.clone()));
+    let h0 = make_handler(hk, &w, 0);
+    {
+        let store = p0.lance_store(URI);
+        let mut m = base_manifest("MK<init>KM");
+        m.version = 1;
+        if let Err(e) = h0.commit(&mut m, None, &Path::from(BASE), &store, write_manifest_file_to_path, scheme, None).await {
+            return RunResult::harness_error(&cfg, format!("initial commit failed: {:?}", e));
+        }
+    }
+
+    let nwriters = rng.range(2, 3) as u32;
+    let nreaders = rng.range(1, 2) as u32;
+    let attempts = rng.range(1, 3) as u32;
+    let obs: Arc<Mutex<Vec<Obs>>> = Arc::new(Mutex::new(Vec::new()));
+    let mut actors = Vec::new();
+    let mut tasks = Vec::new();
+    w.set_gated(true);
+    for i in 0..nwriters {
+        let id = 1 + i;
+        let p = Arc::new(Party::new(&w, id, knobs.clone()));
+        let h = make_handler(hk, &w, id);
+        actors.push(id);
+        tasks.push(tokio::spawn(writer(p, h, scheme, attempts, obs.clone())));
+    }
+    for i in 0..nreaders {
+        let id = 10 + i;
+        let p = Arc::new(Party::new(&w, id, knobs.clone()));
+        let h = make_handler(hk, &w, id);
+        actors.push(id);
+        tasks.push(tokio::spawn(reader(p, h, rng.range(1, 3) as u32, rng.next_u64(), obs.clone())));
+    }
+    res.script.push(format!("{} writers x {} attempts, {} readers, handler {:?}, scheme {:?}", nwriters, attempts, nreaders, hk, scheme));
+    let mut sc = SchedCfg { p_reorder: 0.2, p_stick: rng.f64() * 0.8, ..Default::default() };
+    if faults_on {
+        sc.fault_budget = rng.range(0, 3) as u32;
+        sc.p_fault = 0.08;
+        sc.faults = if amb {
+            vec![Decision::FailPost, Decision::Dup, Decision::FailPre]
+        } else {
+            vec![Decision::FailPre, Decision::CrashPre, Decision::CrashPost]
+        };
+        sc.amb_classes = vec![PathClass::Manifest, PathClass::ManifestStaging];
+    }
+    let out = drive(&w, &mut rng, &sc, &actors, &mut tasks, cfg.trace).await;
+    w.set_gated(false);
+    res.interleaving_hash = out.hash;
+    res.nontrivial = out.overlapped || out.faults_fired > 0;
+    res.trace = out.trace.clone();
+    if out.stuck {
+        res.violate("C02", "liveness", &format!("stuck:{:?}", hk), 0, format!("no progress for {} virtual ms with parties unfinished", sc.t_live_ms));
+    }
+    res.probe_n("decisions", out.decisions);
+    if out.overlapped {
+        res.probe("overlapped");
+    }
+
+    // ---------------- oracles over the history ----------------
+    let obs = obs.lock().unwrap().clone();
+    // O-immut
+    {
+        let g = w.lock();
+        for v in g.immut_violations.iter() {
+            res.violate("C02", "O-immut", &format!("manifest-replaced:{:?}", hk), 0, v.clone());
+        }
+    }
+    // final published manifests
+    let mut published: BTreeMap<u64, String> = BTreeMap::new();
+    for p in w.list_paths(&format!("{}/_versions/", BASE)) {
+        let name = p.rsplit('/').next().unwrap();
+        if let Some(sch) = ManifestNamingScheme::detect_scheme(name) {
+            if let Some(v) = sch.parse_version(name) {
+                if let Some(mk) = w.get_raw(&p).and_then(|b| marker_of(&b)) {
+                    if published.insert(v, mk).is_some() {
+                        res.violate("C02", "unique-version", "version-published-twice", 0, format!("version {} present under two names", v));
+                    }
+                }
+            }
+        }
+    }
+    // with the external store a version may be committed but not yet finalised
+    let mut committed: BTreeMap<u64, String> = published.clone();
+    if hk == HandlerKind::External {
+        let ext: Vec<((String, u64), crate::world::ExtEntry)> = w.lock().ext.iter().map(|(k, v)| (k.clone(), v.clone())).collect();
+        for ((_, v), e) in ext {
+            match w.get_raw(&e.path).and_then(|b| marker_of(&b)) {
+                Some(mk) => {
+                    if let Some(old) = committed.get(&v) {
+                        if *old != mk {
+                            res.violate("C10", "one-content-per-version", "ext-and-final-differ", 0, format!("version {}: external entry -> {} ({}), final path holds {}", v, e.path, mk, old));
+                        }
+                    }
+                    committed.insert(v, mk);
+                }
+                None => {
+                    if !amb || true {
+                        res.violate("C10", "durable", if amb { "ext-entry-dangling:amb" } else { "ext-entry-dangling" }, 0, format!("external store entry for version {} points to missing object {}", v, e.path));
+                    }
+                }
+            }
+        }
+    }
+    // writers
+    let mut ok_by_version: BTreeMap<u64, Vec<(u32, String)>> = BTreeMap::new();
+    for o in obs.iter() {
+        if let Obs::Commit { actor, marker, version, outcome } = o {
+            res.probe(&format!("commit-{}", outcome.split(':').next().unwrap()));
+            if outcome == "ok" {
+                ok_by_version.entry(*version).or_default().push((*actor, marker.clone()));
+                match committed.get(version) {
+                    Some(mk) if mk == marker => {}
+                    other => res.violate("C02", "winner-durable", &format!("ok-but-not-published:{:?}", hk), 0, format!("writer a{} got Ok for version {} with marker {} but version holds {:?}", actor, version, marker, other)),
+                }
+            } else if outcome == "conflict" {
+                if let Some(mk) = committed.get(version) {
+                    if mk == marker && !amb {
+                        res.violate("C02", "loser-not-published", &format!("conflict-but-published:{:?}", hk), 0, format!("writer a{} was told conflict for version {} but its manifest {} is the published one", actor, version, marker));
+                    }
+                }
+            }
+        }
+    }
+    for (v, ws) in ok_by_version.iter() {
+        if ws.len() > 1 {
+            res.violate("C02", "one-winner", &format!("two-winners:{:?}", hk), 0, format!("version {} reported Ok to {:?}", v, ws));
+        }
+    }
+    // dense
+    if let Some(maxv) = committed.keys().max() {
+        for v in 1..=*maxv {
+            if !committed.contains_key(&v) {
+                res.violate("C01", "dense-versions", "gap-in-versions", 0, format!("version {} missing while {} exists", v, maxv));
+            }
+        }
+    }
+    // readers: same content for a version for everybody, equal to the final content
+    let mut seen: BTreeMap<u64, BTreeSet<String>> = BTreeMap::new();
+    for o in obs.iter() {
+        if let Obs::Read { actor, version, marker, how } = o {
+            res.probe("reads");
+            seen.entry(*version).or_default().insert(marker.clone());
+            if let Some(mk) = committed.get(version) {
+                if mk != marker {
+                    res.violate(if hk == HandlerKind::External { "C10" } else { "C02" }, "one-content-per-version", &format!("reader-saw-other-content:{:?}", hk), 0, format!("reader a{} ({}) saw {} at version {}, final content is {}", actor, how, marker, version, mk));
+                }
+            }
+        }
+    }
+    for (v, s) in seen.iter() {
+        if s.len() > 1 {
+            res.violate(if hk == HandlerKind::External { "C10" } else { "C02" }, "one-content-per-version", &format!("two-contents-seen:{:?}", hk), 0, format!("version {} was read with contents {:?}", v, s));
+        }
+    }
+
+    // ---------------- after faults stop: repair + bounded liveness ----------------
+    let pf = Arc::new(Party::new(&w, 50, knobs.clone()));
+    let hf = make_handler(hk, &w, 50);
+    let store = pf.lance_store(URI);
+    let base = Path::from(BASE);
+    let expect_latest = committed.keys().max().cloned().unwrap_or(1);
+    match hf.resolve_latest_location(&base, &store).await {
+        Ok(loc) => {
+            if loc.version != expect_latest {
+                res.violate("C33", "latest-is-highest", &format!("latest-wrong:{:?}", hk), 0, format!("fresh reader resolves latest={} but highest committed is {}", loc.version, expect_latest));
+            }
+        }
+        Err(e) => res.violate(if hk == HandlerKind::External { "C10" } else { "C33" }, "latest-resolvable", &format!("latest-error:{:?}{}", hk, if amb { ":amb" } else { "" }), 0, format!("fresh reader cannot resolve latest: {}", e)),
+    }
+    for (v, mk) in committed.iter() {
+        match hf.resolve_version_location(&base, *v, &store.inner).await {
+            Ok(loc) => {
+                let got = read_marker(&pf, &loc.path).await;
+                if got.as_ref() != Some(mk) {
+                    res.violate("C10", "repair-same-content", &format!("resolve-version-content:{:?}", hk), 0, format!("version {} resolves to {} holding {:?}, expected {}", v, loc.path, got, mk));
+                }
+                if hk == HandlerKind::External {
+                    let std_path = scheme.manifest_path(&base, *v);
+                    if loc.path != std_path {
+                        res.violate("C10", "repair-to-standard-path", "not-finalised", 0, format!("version {} resolved to {} not the standard path {}", v, loc.path, std_path));
+                    }
+                }
+            }
+            Err(e) => res.violate("C10", "committed-resolvable", &format!("resolve-version-error:{:?}{}", hk, if amb { ":amb" } else { "" }), 0, format!("committed version {} cannot be resolved: {}", v, e)),
+        }
+    }
+    // a fresh writer commits within 3 attempts
+    let mut committed_new = false;
+    for att in 0..3 {
+        if let Ok(latest) = hf.resolve_latest_location(&base, &store).await {
+            let mut m = base_manifest(&format!("MK<fresh-{}>KM", att));
+            m.version = latest.version + 1;
+            if hf.commit(&mut m, None, &base, &store, write_manifest_file_to_path, scheme, None).await.is_ok() {
+                committed_new = true;
+                break;
+            }
+        }
+    }
+    if !committed_new {
+        res.violate("C02", "liveness", &format!("fresh-writer-cannot-commit:{:?}{}", hk, if amb { ":amb" } else { "" }), 0, "after faults stopped a fresh writer could not commit in 3 attempts".into());
+    }
+
+    {
+        let g = w.lock();
+        res.calls = g.stats.calls;
+        res.faults = g.stats.faults.clone();
+        res.sim_time_ms = ((g.clock_ns - crate::world::EPOCH_NS) / 1_000_000) as u64;
+    }
+    res.digest = w.digest();
+    res.steps = out.decisions;
+    res.kinds = vec![format!("{:?}", hk)];
+    res.wall_ms = t0.elapsed().as_millis() as u64;
+    res
 }
